@@ -655,6 +655,16 @@ class ExprMixin:
                 if 'method:%s.%s' % (c, attr) in ctx.stubs:
                     yield st, FuncV('stubmethod', recv=v, fn=ctx.stubs['method:%s.%s' % (c, attr)])
                     return
+            # the static class has no such attribute but a subclass does (the code relies on an unchecked typing.cast
+            # under `if TYPE_CHECKING:`): dynamic lookup - AttributeError unless the object is of that subclass
+            owners = [c for c in ctx.shapes.subclasses(cls) if c != cls and ctx.shapes.field(c, attr) is not None
+                      and not any(o != c and c in ctx.shapes.subclasses(o) and ctx.shapes.field(o, attr) is not None
+                                  for o in ctx.shapes.subclasses(cls) if o != cls)]
+            if len(owners) == 1:
+                d = owners[0]
+                self.pend_raise(st, z3.Not(ctx.shapes.isinstance_term(v.term, d)), 'AttributeError', frame, node)
+                yield st, self.read_field(RefV(v.term, ref(d), False), ctx.shapes.field(d, attr), st)
+                return
             raise VCError('no field/method %s on %s (line %s)' % (attr, cls, getattr(node, 'lineno', '?')))
         if isinstance(v, Cont):
             yield st, FuncV('contmethod', recv=v, name=attr)
